@@ -266,7 +266,7 @@ def _spec_dimension(spec):
     return None
 
 
-def build_arguments(modname: str, fname: str, func):
+def build_arguments(modname: str, fname: str, func, jitter: float = 1.0):
     """Quantity arguments for a guarded function, or None if some parameter has no usable spec."""
     from sympy.physics.units import Dimension  # pylint: disable=import-outside-toplevel
     from symplyphysics import Quantity  # pylint: disable=import-outside-toplevel
@@ -291,7 +291,7 @@ def build_arguments(modname: str, fname: str, func):
             dim = _spec_dimension(spec_)
             if not isinstance(dim, Dimension) or type(dim).__name__ == "AnyDimension":
                 return None
-            val = _h(f"{modname}.{fname}.{p.name}{tag}", "arg")
+            val = _h(f"{modname}.{fname}.{p.name}{tag}", "arg") * jitter
             return Quantity(val * dimension_to_si_unit(dim))
 
         if isinstance(spec, (list, tuple)):
@@ -349,7 +349,29 @@ def _outcome(ret):
     return ["other", type(ret).__name__]
 
 
-def call_functions(mod, only=None) -> dict:
+def guarded_functions(mod):
+    for fname in sorted(vars(mod)):
+        if fname.startswith("_"):
+            continue
+        func = vars(mod)[fname]
+        if not inspect.isfunction(func) or getattr(func, "__module__", None) != mod.__name__:
+            continue
+        if hasattr(func, "__wrapped__"):
+            yield fname, func
+
+
+def prepare_arguments(mod) -> dict:
+    """Argument quantities for every guarded function, created now and used (much) later."""
+    out = {}
+    for fname, func in guarded_functions(mod):
+        try:
+            out[fname] = build_arguments(mod.__name__, fname, func)
+        except Exception:  # pylint: disable=broad-except
+            out[fname] = None
+    return out
+
+
+def call_functions(mod, only=None, prepared=None, jitter: float = 1.0) -> dict:
     out = {}
     for fname in sorted(vars(mod)):
         if fname.startswith("_"):
@@ -362,7 +384,10 @@ def call_functions(mod, only=None) -> dict:
         if only is not None and fname not in only:
             continue
         try:
-            args = build_arguments(mod.__name__, fname, func)
+            if prepared is not None and prepared.get(fname) is not None:
+                args = prepared[fname]
+            else:
+                args = build_arguments(mod.__name__, fname, func, jitter)
         except Exception as ex:  # pylint: disable=broad-except
             out[fname] = ["argerror", type(ex).__name__]
             continue
@@ -397,7 +422,7 @@ def try_import(modname: str):
         return None, f"{type(ex).__name__}: {str(ex)[:160]} @ {where}"
 
 
-def observe(modname: str, with_calls: bool = True) -> dict:
+def observe(modname: str, with_calls: bool = True, prepared=None) -> dict:
     import sympy as sp  # pylint: disable=import-outside-toplevel
     from sympy.core.function import FunctionClass  # pylint: disable=import-outside-toplevel
     mod, err = try_import(modname)
@@ -421,5 +446,5 @@ def observe(modname: str, with_calls: bool = True) -> dict:
             syms[attr] = [str(v.display_name), str(getattr(v, "display_latex", "")), str(v.dimension), str(ass), type(v).__name__]
     out = {"import": "ok", "equations": eqs, "symbols": syms}
     if with_calls:
-        out["calls"] = call_functions(mod)
+        out["calls"] = call_functions(mod, prepared=prepared)
     return out
